@@ -132,6 +132,16 @@ class GenerateWasmVisitor(Visitor.DefaultVisitor):
         assert ctx.Code
         if vai.Scope == LinearIR.VariableAccessScope.FUNCTION_ARGUMENT:
             index = vai.Variable
+            if vai.Store:
+                # Store to an argument: the arguments are the first locals
+                self.__PushValueOntoStack(vai.Store, ctx)
+                ctx.Code.AddInstruction(
+                    WebAssembly.Instruction(
+                        WebAssembly.opcodes["local.set"], (index,)
+                    )
+                )
+                return
+
             ctx.Code.AddInstruction(
                 WebAssembly.Instruction(
                     WebAssembly.opcodes["local.get"], (index,)
@@ -143,6 +153,15 @@ class GenerateWasmVisitor(Visitor.DefaultVisitor):
                     (ctx.GetLocalForReference(vai.Reference),),
                 )
             )
+        else:
+            self.v_Instruction(vai, ctx)
+
+    def v_Instruction(self, instruction: LinearIR.Instruction, ctx: Context):
+        # Every instruction without a handler of its own ends up here. It
+        # must not be dropped from the generated code silently
+        raise RuntimeError(
+            f"The WebAssembly backend cannot translate {instruction.OpCode}"
+        )
 
     def __PushValueOntoStack(self, value: LinearIR.Value, ctx: Context):
         assert ctx.Code
